@@ -97,6 +97,9 @@ package tubes
 //@   property C11 C08
 //@   requires len(s.frames) >= 1 && s.frames[0].frame != nil
 //@   modifies s.RTT, s.RTO, s.senderWindow.cwndSize, s.senderWindow.state, s.senderWindow.duplicatedAckCounter
+// an acknowledgement that advances resets the duplicate-ACK counter (otherwise duplicates accumulated over the tube's
+// whole life would eventually trip the too-many-duplicates limit and tear a healthy tube down)
+//@   ensures s.senderWindow.duplicatedAckCounter == 0
 
 //@ func (s *sender) onLoss(ackNo uint32) (missing uint32)
 //@   property C11 C08
